@@ -53,6 +53,19 @@ def _res(em, e):
     return unparse(e)
 
 
+def _same(em, a, b):
+    """two expressions denote the same integer once the elaborate()'s local aliases are resolved (compared as polynomials,
+    so `inner_depth + 1` and `self.depth` agree when inner_depth = self.depth - 1)"""
+    from ..engine.norm import poly
+    ra, rb = _res(em, a), _res(em, b)
+    if ra == rb:
+        return True
+    try:
+        return poly(ast.parse(ra, mode="eval").body) == poly(ast.parse(rb, mode="eval").body)
+    except Exception:
+        return False
+
+
 def _main(assigns):
     """assignments of the general (depth >= 2 / not special-cased) configuration: all Python conditions negative"""
     return [a for a in assigns if all(not p for _t, p in a.pyconds)]
@@ -142,13 +155,16 @@ def r12b(model, ctx):
         D = "self.depth" if cls == "SyncFIFO" else "inner_depth"
         for ptr in ("produce", "consume"):
             c = em.signals.get(ptr)
-            ok = c is not None and _sig_range(c) is not None and _res(em, _sig_range(c)) == _res(em, D)
+            ok = c is not None and _sig_range(c) is not None and _same(em, _sig_range(c), D)
             ctx.check(ok, R, f"{cls}:{ptr}:range", f"Signal(range({D}))", f"{cls}: {ptr} must be Signal(range({D}))", f"{FIFO}:{fn.lineno}")
         # modulus of the pointer increment == pointer range == storage depth
         for ptr in ("produce", "consume"):
             for a in [a for a in _main(em.assigns) if a.target_text == ptr and a.domain == "sync"]:
-                m = pmatch(f"_incr({ptr}, _V_M)", a.rhs)
-                ok = m is not None and _res(em, m["_V_M"]) == _res(em, D)
+                rhs_ = a.rhs
+                if isinstance(rhs_, ast.Name) and isinstance(em.aliases.get(rhs_.id), ast.AST):
+                    rhs_ = em.aliases[rhs_.id]          # the increment hoisted into a local
+                m = pmatch(f"_incr({ptr}, _V_M)", rhs_)
+                ok = m is not None and _same(em, m["_V_M"], D)
                 ctx.check(ok, R, f"{cls}:{ptr}:modulus", f"wraps at {D}", f"{cls}: {ptr} must advance with _incr({ptr}, {D}); found "
                           f"{unparse(a.rhs)}", f"{FIFO}:{a.lineno}")
         st = [s for s in em.submodules if s.name == "storage"]
@@ -163,7 +179,7 @@ def r12b(model, ctx):
             ctx.check(ok, R, f"{cls}:inner_depth", "inner_depth = depth - 1 (one entry lives in the output register)",
                       "inner_depth must be self.depth - 1", f"{FIFO}:{fn.lineno}")
             c = em.signals.get("inner_level")
-            ok = c is not None and _sig_range(c) is not None and unparse(_sig_range(c)) == "inner_depth + 1"
+            ok = c is not None and _sig_range(c) is not None and _same(em, _sig_range(c), "inner_depth + 1")
             ctx.check(ok, R, f"{cls}:inner_level:range", "Signal(range(inner_depth + 1))", "inner_level must be "
                       "Signal(range(inner_depth + 1))", f"{FIFO}:{fn.lineno}")
     # _incr helper
